@@ -115,7 +115,7 @@ def _rename_call(c, old, new):
         if isinstance(c.get(key), str): c[key] = c[key].replace(old, new)
 
 
-def _local_is_read(f, l, skip_call=None):
+def _local_is_read(f, l, skip_call=None, drops_count=True):
     def in_place(p): return isinstance(p, dict) and (p.get("l") == l or any(isinstance(e, list) and e and e[0] == "i" and e[1] == l for e in p.get("p", [])))
     def in_op(o): return isinstance(o, list) and o and o[0] in ("c", "m") and in_place(o[1])
     for blk in f["blocks"]:
@@ -133,7 +133,7 @@ def _local_is_read(f, l, skip_call=None):
             if t[1] is skip_call: continue
             if any(in_op(a) for a in t[1]["args"]): return True
         elif t[0] in ("Switch", "Yield", "Assert") and in_op(t[1]): return True
-        elif t[0] == "Drop" and in_place(t[1]): return True
+        elif t[0] == "Drop" and in_place(t[1]) and drops_count: return True
     return l == 0
 
 
